@@ -786,18 +786,18 @@ def r9_name_guard(report, repo):
 
 
 def run(report, repo):
-  r1_who(report, repo)
-  r2_finalize_normally(report, repo)
-  r3_from_outcome(report, repo)
-  r4_teardown_ladder(report, repo)
-  r5_terminal_recorded(report, repo)
-  r6_internal_error(report, repo)
-  r7_last_record(report, repo)
-  r8_execute_returns_pass(report, repo)
-  r9_name_guard(report, repo)
+  report.guard(r1_who, report, repo)
+  report.guard(r2_finalize_normally, report, repo)
+  report.guard(r3_from_outcome, report, repo)
+  report.guard(r4_teardown_ladder, report, repo)
+  report.guard(r5_terminal_recorded, report, repo)
+  report.guard(r6_internal_error, report, repo)
+  report.guard(r7_last_record, report, repo)
+  report.guard(r8_execute_returns_pass, report, repo)
+  report.guard(r9_name_guard, report, repo)
   # an invalid phase return value must become ERROR (shared with C05-R5)
   from sa.rules import c05  # pylint: disable=g-import-not-at-top
-  c05.r5_thread_proc(report, repo, rule='C01-R10')
+  report.guard(c05.r5_thread_proc, report, repo, rule='C01-R10')
   # UNSET measurements pass only while allow_unset_measurements (shared C06-R7)
   from sa.rules import c06  # pylint: disable=g-import-not-at-top
-  c06.r7_measurements_pass(report, repo, rule='C01-R11')
+  report.guard(c06.r7_measurements_pass, report, repo, rule='C01-R11')
